@@ -167,7 +167,8 @@ mod verif_nx_pipeline {
         let stmts = ["", "A := 1;", "if A then B else C;", "for I := 0 to 1 do begin end;", "case A of 1: B; else C; end;", "try A; finally B; end;",
                      "{$ifdef X} A; {$else} B; {$endif}", "with A do B;", "repeat A until B;", "A := procedure begin B; end;",
                      "Foo(Bar, Baz + 1, 'lit', Qux.Quux(1, 2, 3), AVeryLongIdentifierName, AnotherVeryLongIdentifierName);",
-                     "L := TList<Integer>.Create; if (A < B) and (C > D) then E := F<G>(H);", "P^.Q := @R; S := -T + (-U) - V * W[X]^;"];
+                     "L := TList<Integer>.Create; if (A < B) and (C > D) then E := F<G>(H);", "P^.Q := @R; S := -T + (-U) - V * W[X]^;",
+                     "Foo(AAAA or BBBB {$IFDEF EXT} or CCCC() {$ELSE} {$ENDIF}, DDDD);"];
         for d1 in decls { for d2 in decls { for s1 in stmts { for s2 in stmts {
             f(&format!("unit U;\ninterface\n{d1}\nimplementation\n{d2}\ninitialization\n{s1}\n{s2}\nend."));
             f(&format!("program P;\n{d1}\n{d2}\nbegin\n{s1} {s2}\nend."));
